@@ -1,4 +1,5 @@
 import EupsModel.Lemmas.VersionMatch
+import EupsModel.Lemmas.VersionLex
 /-! C10 — version names are ordered consistently: property theorems.
 
 `stdCompare strict a b` is the model of `hooks.version_cmp(a, b, mustReturnInt = !strict)`
@@ -52,6 +53,20 @@ def n_1d2p1 : Str := [49, 46, 50, 43, 49]   -- 1.2+1
 #guard Str.toString n_1d2p1 == "1.2+1"
 def n_a1db2 : Str := [97, 49, 46, 98, 50]   -- a1.b2
 #guard Str.toString n_a1db2 == "a1.b2"
+
+/-! ## which names are accepted; the model's recursion bound -/
+
+/-- Every name that does not start with `-` or `+` is accepted, and so is every name with at least two
+hyphens (`rel-0-8-2`: the whole name is the primary part) and the empty name. -/
+theorem C10_accepted (a : Str) (h : a = [] ∨ hyphens a ≥ 2 ∨ ∃ c cs, a = c :: cs ∧ notPM c = true) :
+    ∃ la, lex a = .ok la := lex_accepts a h
+
+/-- A comparison ends with an integer, with the rejection of a malformed name, or — strict mode only —
+with "cannot be sorted"; in particular the recursion bound of the model's `lex` is never hit. -/
+theorem C10_outcomes (strict : Bool) (a b : Str) (e : Err) (h : stdCompare strict a b = .error e) :
+    e = .malformed ∨ (strict = true ∧ e = .unsortable) := stdCompare_error h
+
+example : ∃ la, lex n_1d2mrc1p3 = .ok la := C10_accepted _ (Or.inr (Or.inr ⟨49, _, rfl, by decide⟩))
 
 /-! ## reflexivity and antisymmetry: every accepted name, both modes -/
 
